@@ -161,6 +161,8 @@ class FibRun:
                     types_ = [e[0] for e in els]
                     if sorted(types_) != sorted(set(types_)) or set(types_) - {0x62, 0x50}:
                         env = 'lp-unexpected-headers'
+                    elif types_ and types_[-1] != 0x50:
+                        env = 'lp-fragment-not-last'
                     tok = dict(els).get(0x62)
                     inner = dict(els).get(0x50, b'')
                 # which reply is it?
